@@ -170,6 +170,82 @@ func c11BigRoundTrip(t *testing.T, n, k, c int) (desc string) {
 	return desc
 }
 
+// c11Hostile: between two ordinary Set calls the store is handed a silence it may refuse (text that is not UTF-8 in a
+// field the API caller controls, or odd but valid text). Whatever Set answers, the snapshots that follow must be written
+// and the next start must load exactly the store as it was in memory; a refused call must have changed nothing.
+var c11HostileKinds = []string{"comment not UTF-8", "creator not UTF-8", "matcher value not UTF-8", "matcher name not UTF-8", "annotation value not UTF-8", "annotation key not UTF-8", "NUL and control bytes in comment, creator and matcher value"}
+
+func c11Hostile(t *testing.T, kind, when int) (desc string) {
+	synctest.Test(t, func(t *testing.T) {
+		fsys := vfs.NewFS()
+		vfs.Install(fsys)
+		defer vfs.Install(nil)
+		s, err := c11New(c11Path)
+		if err != nil {
+			panic(err)
+		}
+		stopc := make(chan struct{})
+		done := make(chan struct{})
+		go func() { s.Maintenance(50*time.Second, c11Path, stopc, nil); close(done) }()
+		ctx := context.Background()
+		now := time.Now()
+		mk := func(v string) *pb.Silence {
+			return &pb.Silence{MatcherSets: []*pb.MatcherSet{{Matchers: []*pb.Matcher{{Type: pb.Matcher_EQUAL, Name: "job", Pattern: v}}}},
+				StartsAt: ts(now), EndsAt: ts(now.Add(30 * time.Minute)), Comment: "c", CreatedBy: "v"}
+		}
+		if err := s.Set(ctx, mk("first")); err != nil {
+			panic(err)
+		}
+		if when == 1 {
+			time.Sleep(51 * time.Second)
+		}
+		bad := "x\xff\xfe"
+		h := mk("hostile")
+		switch kind {
+		case 0:
+			h.Comment = bad
+		case 1:
+			h.CreatedBy = bad
+		case 2:
+			h.MatcherSets[0].Matchers[0].Pattern = bad
+		case 3:
+			h.MatcherSets[0].Matchers[0].Name = bad
+		case 4:
+			h.Annotations = map[string]string{"k": bad}
+		case 5:
+			h.Annotations = map[string]string{bad: "v"}
+		case 6:
+			h.Comment, h.CreatedBy = "a\x00b\x01", "\x7f\x00"
+			h.MatcherSets[0].Matchers[0].Pattern = "v\x00\n"
+		}
+		before := c11Dump(s)
+		serr := s.Set(ctx, h)
+		if serr != nil && c11Dump(s) != before {
+			desc = fmt.Sprintf("Set refused the silence (%v) but the store changed", serr)
+			return
+		}
+		if err := s.Set(ctx, mk("third")); err != nil {
+			panic(err)
+		}
+		if when == 2 {
+			time.Sleep(51 * time.Second)
+		}
+		time.Sleep(time.Second)
+		close(stopc)
+		<-done
+		want := c11Dump(s)
+		s2, err := c11New(c11Path)
+		if err != nil {
+			desc = fmt.Sprintf("Set answered %v; the next start refuses the snapshot this process wrote: %v", serr, err)
+			return
+		}
+		if got := c11Dump(s2); got != want {
+			desc = fmt.Sprintf("Set answered %v; after the shutdown snapshot the next start loads a different store (%d vs %d bytes of dump; files %v)", serr, len(got), len(want), fsys.Names())
+		}
+	})
+	return desc
+}
+
 // c11Load runs the real loader on an image; returns the loaded dump.
 func c11Load(files map[string][]byte) (dump string, err error, pan any) {
 	fsys := vfs.NewFS()
@@ -385,9 +461,17 @@ func TestVerifC11Silences(t *testing.T) {
 				R.Violate("large-store-does-not-survive-restart", fmt.Sprintf("%d silences x %d matcher sets x %d-byte comment: %s", c[0], c[1], c[2], d), map[string]any{"rerun": true, "part": "silences-loader", "case": c})
 			}
 		}
+		for k := range c11HostileKinds {
+			for when := 0; when < 3; when++ {
+				R.Executions++
+				if d := c11Hostile(t, k, when); d != "" {
+					R.Violate("refused-or-odd-silence-breaks-the-snapshots", fmt.Sprintf("silence with %s (timing %d): %s", c11HostileKinds[k], when, d), map[string]any{"rerun": true, "part": "silences-loader", "kind": k})
+				}
+			}
+		}
 		R.Transitions = R.Executions
 		R.Exhaustive = true
-		R.Bound = fmt.Sprintf("every byte prefix of a valid %d-byte snapshot; every byte replaced by 0x00 / 0xff / its complement; legacy record shape; full round trip; stores of up to 3000 silences / records of up to 300 KB through snapshot and restart", len(snap))
+		R.Bound = fmt.Sprintf("every byte prefix of a valid %d-byte snapshot; every byte replaced by 0x00 / 0xff / its complement; legacy record shape; full round trip; stores of up to 3000 silences / records of up to 300 KB through snapshot and restart; %d kinds of silences Set may refuse x 3 snapshot timings", len(snap), len(c11HostileKinds))
 		R.Sample(map[string]any{"snapshot_bytes": len(snap)})
 		R.Write()
 	}
